@@ -538,6 +538,8 @@ func c01Trusts() []struct {
 		{"pinned-garbage", func(c *Cfg) { c.Trust, c.C = tPinned, -1 }},
 		{"fingerprint", func(c *Cfg) { c.Trust, c.C, c.AlgOK = tFinger, 0, true }},
 		{"fingerprint-other", func(c *Cfg) { c.Trust, c.C, c.AlgOK = tFinger, 1, true }},
+		{"fingerprint-sha512", func(c *Cfg) { c.Trust, c.C, c.AlgOK, c.FingerSHA512 = tFinger, 0, true, true }},
+		{"fingerprint-sha512-other", func(c *Cfg) { c.Trust, c.C, c.AlgOK, c.FingerSHA512 = tFinger, 1, true, true }},
 		{"fingerprint-unknown-alg", func(c *Cfg) { c.Trust, c.C, c.AlgOK = tFinger, 0, false }},
 		{"misconfigured", func(c *Cfg) { c.Trust = tBad }},
 	}
